@@ -705,6 +705,7 @@ fn load(c: &Case, eff: &Effective, extra: Option<&str>, optimize: bool) -> (Load
 
 fn eval(c: &Case, want_shapes: bool) -> Option<Outcome> {
     let req = Request::new(&c.url, &c.source, &c.ty).ok()?;
+    implrun::net::register_request(&req, &c.url, &c.source, &c.ty);
     let eff = effective(c);
     let (loaded, log) = load(c, &eff, None, c.optimize);
     let res = loaded.check(&req);
@@ -716,8 +717,8 @@ fn eval(c: &Case, want_shapes: bool) -> Option<Outcome> {
     let mut enabled_tagged: Vec<(bool, Option<String>, String)> = vec![];
     let mut tagged_redirect_opt_matches = false;
     for (line, f) in live.iter().map(|x| (&x.0, &x.1)) {
-        let mut rm = RegexManager::default();
-        if !f.matches(&req, &mut rm) {
+        // (the crate's matcher, cross-checked against the reading of the rule text)
+        if !implrun::net::rule_matches(f, &req) {
             continue;
         }
         let tagged = adblock::verif_hooks::filter_tag(f).is_some();
